@@ -428,7 +428,7 @@ def rescale_params(spec, k):
 
 def body_size(spec):
     p = spec["params"]
-    vals = [np.abs(np.array(p[k], dtype=float)[:3 if k == "dim" else None]).max()
+    vals = [np.abs(np.atleast_1d(np.array(p[k], dtype=float))[:3 if k == "dim" else None]).max()
             for k in ("dim", "d", "verts", "points") if k in p]
     return max(vals) if vals else 1.0
 
@@ -545,6 +545,20 @@ def check_single(spec):
         lo, hi = local.min(axis=0), local.max(axis=0)
         if (pix < lo - 1e-9).any() or (pix > hi + 1e-9).any():
             return ("placed-at-pose", "a pixel lies outside the drawn sensor model")
+        # every pixel is the centre of a drawn cube (default style.pixel.size > 0)
+        corners = np.array([[sx, sy, sz] for sx in (-1, 1) for sy in (-1, 1) for sz in (-1, 1)], dtype=float)
+        for q in pix:
+            d = np.abs(local - q)
+            cand = d[(np.abs(d[:, 0] - d[:, 1]) < 1e-9 * size) & (np.abs(d[:, 0] - d[:, 2]) < 1e-9 * size)
+                     & (d[:, 0] > 1e-9 * size)][:, 0]
+            ok = False
+            for h in np.unique(np.round(cand / size, 9)) * size:
+                want_c = q + h * corners
+                if all(np.min(np.linalg.norm(local - w, axis=1)) < 1e-8 * size for w in want_c):
+                    ok = True
+                    break
+            if not ok:
+                return ("placed-at-pose", "no pixel cube is drawn around a pixel position")
     elif cls == "Dipole":
         m = np.array(spec["params"]["moment"], dtype=float)
         m /= np.linalg.norm(m)
@@ -587,6 +601,20 @@ def check_single(spec):
         return ("frames", f"copies drawn at path indices {[sorted(mc) for mc in matches]}, documented selection "
                           f"is {' or '.join(str(sorted(a)) for a in exp)}")
 
+    # ---- facets: every drawn triangle joins three vertices of ONE copy and lies on the surface
+    if body[0]["type"] == "mesh3d" and "ijk" in body[0] and cls in MAGNETS:
+        ijk, nv = body[0]["ijk"], len(local)
+        if ijk.min() < 0 or ijk.max() >= len(body[0]["xyz"]) or (ijk // nv != (ijk // nv)[:, :1]).any():
+            return ("on-surface", "a drawn facet joins vertices of different copies (or missing vertices)")
+        if len(ijk) != len(cps) * len(ref_body[0]["ijk"]):
+            return ("on-surface", "copies have different numbers of facets")
+        first = ijk[ijk[:, 0] // nv == 0] % nv
+        cen = local[first].mean(axis=1)
+        slack = {"Cuboid": 1e-9, "Tetrahedron": 1e-9, "TriangularMesh": 1e-9, "Triangle": 4e-3}.get(cls, 0.03)
+        worst = max(dist(q) for q in cen)
+        if worst > slack * L:
+            return ("on-surface", f"a drawn facet's centre is {worst / L:.3g} x size away from the surface")
+
     # ---- the default display (orientation cones, current arrows, ... switched on) contains the same body
     full, _ = to_metres(do_show([build(spec)], show_kwargs(spec, decor=True)))
     cloud = vertex_cloud(full, "mesh3d" if body[0]["type"] == "mesh3d" else "lines")
@@ -623,6 +651,9 @@ def shrink_spec(spec, fails):
             return fails(c)
         except Exception:   # pylint: disable=broad-except
             return False
+    for key, val in (("frames", None), ("units", "m"), ("backend", "plotly")):
+        if cur.get(key) != val and attempt({**cur, key: val}):
+            cur = {**cur, key: val}
     cands = []
     n = len(cur["pos"])
     if n > 1:
@@ -632,9 +663,6 @@ def shrink_spec(spec, fails):
         if attempt(c):
             cur = c
             break
-    for key, val in (("frames", None), ("units", "m"), ("backend", "plotly")):
-        if cur.get(key) != val and attempt({**cur, key: val}):
-            cur = {**cur, key: val}
     L = body_size(cur)
     if not 0.3 <= L <= 3.5:
         k = 10.0 ** (-round(math.log10(L)))
@@ -1248,6 +1276,10 @@ def search(ctx, big):
         spec["backend"] = "matplotlib" if t % 5 == 0 else "plotly"
         if t % 7 == 0:
             spec["show_kw"] = {"style": {"color": "red", "path": {"numbering": True}}, "style_magnetization_mode": "arrow"}
+        if t % 7 == 3 and spec["bad"] is None:
+            spec["backend"] = "plotly"
+            spec["show_kw"] = {"animation": True, "animation_fps": 7, "animation_slider": True, "zoom": 1,
+                               "style_path_show": False}
         res = safe_check(check_unchanged, spec)
         ctx.case(("unchanged", json.dumps(spec, sort_keys=True)), True)
         ctx.bump("unchanged:" + (spec["bad"] or "valid"))
